@@ -111,6 +111,23 @@ FULLY_SPECIFIED |= {
 }
 
 
+def string_slicing(f, g):
+    """a failed index precondition at `x[a..b]` where `x` is declared `: String` in the lines above (same function)"""
+    if 'precondition not satisfied' not in f.get('message', '') or not f.get('clause_ext') or not f.get('pline'):
+        return False
+    try:
+        line = g.lines[f['pline'] - 1]
+    except Exception:
+        return False
+    for m in re.finditer(r'(\w+)\s*\[[^\]\[]*\.\.[^\]\[]*\]', line):
+        x = m.group(1)
+        lo = max(0, f['pline'] - 120)
+        for l in g.lines[lo:f['pline']]:
+            if re.search(r'\b%s\s*:\s*&?\s*(?:mut\s+)?String\b' % re.escape(x), l):
+                return True
+    return False
+
+
 def novelty(xlog):
     """function key -> why a failed proof inside it is no evidence against the code: the changed body calls a library function
     that no function of the unchanged tree calls (its assumed contract, if any, was never exercised by a proof and is usually
@@ -529,8 +546,9 @@ def check(prop, tier, seed):
     # labelled obligations of this property: (function key, label)
     obligations = []
     lib_names = set(nm for (ln, nm, key, src) in gi.fn_at if not key and not gi.module_of(ln).startswith('code'))
+    code_keys = set(key for (ln, nm, key, src) in gi.fn_at if key)   # a free function of the crate may share its name with a stand-in method
     for fkey, labs in fn_labels.items():
-        if fkey in lib_names:
+        if fkey in lib_names and fkey not in code_keys:
             continue   # labels written on trait-level clauses in the prelude name obligations of the verified impls
         for lab in labs:
             if lab.split('.')[0] == prop:
@@ -592,6 +610,14 @@ def check(prop, tier, seed):
             # overflow, division by zero, out-of-range index, non-termination, or the precondition of a LIBRARY function
             # (unwrap/expect/index/slice/advance/copy_from_slice: a panic): property C03 and nothing else
             props = ['C03']
+            if string_slicing(f, g):
+                # `&s[a..]` on a String: whether the offset is a char boundary needs UTF-8 reasoning that T14 supplies for
+                # ASCII strings only -- the precondition cannot be decided either way, and what is known about the slice
+                # afterwards is incomplete as well: the proof is broken here, nothing is reported
+                broken = True
+                props = props_of_labels(fn_labels.get(fkey, []))
+                if 'C03' not in props:
+                    props.append('C03')
         else:
             # failed assertion of a proof hint, loop invariant, or the precondition of another function of the crate: the proof
             # is broken here, which decides nothing (neither for C03 nor for the labelled clauses of this function)
@@ -664,6 +690,16 @@ def check(prop, tier, seed):
     if moved:
         violations = [v for v in violations if not (v['fn'] in rl_fns and not v.get('kani'))]
         undecided_fns += moved
+    # string slicing whose char-boundary precondition cannot be decided: what the function does afterwards rests on an
+    # incomplete contract, so its other verdicts are not trusted either
+    ss_fns = set(f['fn'] for f in fl if string_slicing(f, gi2 if f.get('_gi') == 2 else gi))
+    moved = [v for v in violations if v['fn'] in ss_fns and not v.get('kani')]
+    if moved:
+        violations = [v for v in violations if not (v['fn'] in ss_fns and not v.get('kani'))]
+        for v in moved:
+            v = dict(v)
+            v['message'] = 'slices a String at an offset whose char-boundary property is out of reach (T14 covers ASCII strings only); ' + v['message']
+            undecided_fns.append(v)
     failed_fns = set(f['fn'] for f in violations) | set(f['fn'] for f in undecided_fns)
     discharged = [(fk, lab) for (fk, lab) in obligations if fk not in failed_fns]
     # supporting library functions (lemmas, spec-fn termination checks) verified in this run
@@ -686,7 +722,8 @@ def check(prop, tier, seed):
             kani = vpkani.run(prop)
             json.dump(kani, open(kf, 'w'))
         und = [k for k in kani if k['status'] == 'undecided']
-        if und:
+        # a harness that did not finish decides nothing; a violation Verus has established stands on its own
+        if und and not violations:
             undecided('Kani harness undecided: ' + '; '.join('%s: %s' % (k['harness'], k['detail'][-200:]) for k in und))
         for k in kani:
             if k['status'] == 'fail':
